@@ -210,12 +210,14 @@ def main():
             "serves_properties": sorted(set(CHECKS) - NO_FUZZ),
             "kind_free_text": "atheris 3.1 / libFuzzer over hypothesis.fuzz_one_input of the property's own strategy with the "
                               "property's own run_case oracle inside the target; coverage from the instrumented torchsde "
-                              "package; K processes with seeds derived from VERIF_SEED, fresh corpora; failing cases are "
+                              "package; K processes with seeds derived from VERIF_SEED, fresh corpora seeded with PRNG byte strings; failing cases are "
                               "saved as ordinary JSON replays and re-evaluated uninstrumented",
         }],
         "checks": checks,
         "not_applicable": na,
-        "notes": "fix: commits in /repo are listed in KNOWN_FINDINGS.txt (fixed: lines). ./check <ID> --replay <file> "
+        "notes": "seeded/<id>/ holds 240 independently written property-breaking changes (patch, demonstration, what each needs "
+                 "to manifest, what was run); DESIGN.md section 8 records which check catches which. "
+                 "fix: commits in /repo are listed in KNOWN_FINDINGS.txt (fixed: lines). ./check <ID> --replay <file> "
                  "re-runs one saved case without Hypothesis.",
     }
     with open(os.path.join(HERE, "MANIFEST.json"), "w") as fh:
